@@ -161,9 +161,22 @@ def is_negation(a: T, b: T) -> bool:
     return False
 
 
+_DUAL = {"jax.numpy.any": "jax.numpy.all", "jax.numpy.all": "jax.numpy.any", "numpy.any": "numpy.all", "numpy.all": "numpy.any",
+         "builtins.any": "builtins.all", "builtins.all": "builtins.any"}
+
+
 def negand(t: T) -> Optional[T]:
-    """If t is `not x` return x."""
+    """If t is `not x` return x.  any(~y) is not all(y), all(~y) is not any(y) (quantifier duality)."""
     t = strip_cast(t)
+    n_ = ext_name(t)
+    if n_ in _DUAL and len(t.args[1]) == 1:
+        inner = negand(t.args[1][0])
+        if inner is not None:
+            return mk("call", mk("ext", _DUAL[n_]), (inner,), t.args[2])
+    if t.kind == "call" and t.args[0].kind == "attr" and t.args[0].args[1] in ("any", "all") and not t.args[1]:
+        inner = negand(t.args[0].args[0])
+        if inner is not None:
+            return mk("call", mk("ext", "jax.numpy." + {"any": "all", "all": "any"}[t.args[0].args[1]]), (inner,), t.args[2])
     if t.kind == "un" and t.args[0] in ("~", "not"):
         return strip_cast(t.args[1])
     if t.kind == "bin" and t.args[0] == "-" and t.args[1].kind == "const" and t.args[1].args[0] == 1:
